@@ -1,8 +1,28 @@
 (* C19 — dynamic registration resolves names through the file's own imports.
-   Proved so far: the elementary facts below; the resolution / isolation theorems are carried by the
-   correspondence engine dynreg (translation validation). *)
+   Model: Model/DynReg.v (import binding rules, per-file symbol table, attribute chains over a universe tree
+   of modules / classes / functions with object identities, registration under the module path derived from
+   the import, method => class (re-)registration, inverse registry, re-pointing of references).
+   Proved here:
+     - what an import binds (four forms), missing modules, the reserved name gin, late / aliased enabling,
+       unknown __gin__ features;
+     - isolation: the symbol table after a parse call contains only names bound by THAT text's own import
+       statements, starts empty for every call, and is independent of everything but the registry; a file
+       without the feature has an empty table; an unprovided first component is a NameError, a missing
+       attribute an AttributeError;
+     - exactness: the selector returned for a dotted name is registered for the very object the attribute
+       chain denotes (universes in which a class does not share an identity with its own attribute; a
+       refutation shows the hypothesis is needed in the model);
+     - spellings: a second spelling of an already registered function yields the same configurable and
+       changes nothing; the registry stays a function of selectors (no duplicates) and never loses or
+       re-targets an entry;
+     - references keep working: across any run (successful or failed) every recorded reference still names a
+       registered selector and the same object as when it was created, and after a re-registration the
+       re-pointed reference names the LATEST registration of its object;
+     - config_str header: bound names are re-aliased to be unique.
+   Two deviations of the implementation from this model are recorded findings (F21, F22), see
+   known_findings.json; whole-text round trip of config_str is validated on the implementation. *)
 From Coq Require Import List String ZArith Bool Arith.
-From GinV Require Import Lib.Out Lib.PyStr Model.SelectorMap Model.Serial Model.DynReg.
+From GinV Require Import Lib.Out Lib.PyStr Model.SelectorMap Model.Serial Model.DynReg Proofs.SerialProofs Proofs.DynRegProofs.
 Import ListNotations.
 Open Scope string_scope.
 Open Scope list_scope.
@@ -39,8 +59,119 @@ Proof.
   rewrite Ht, Hf, Ho, He. reflexivity.
 Qed.
 
+(* ---- imports ---- *)
+Theorem C19_import_binds : forall univ c d c' leaf, c_dynamic c = true ->
+  (d_from d && String.prefix gin_feature_prefix (d_module d)) = false ->
+  import_path univ (split_dot (d_module d)) = Some leaf -> d_bound_name d <> "gin" ->
+  process_import univ c d = DOk c' ->
+  tget (d_bound_name d) (c_table c') =
+    Some (if d_from d || has_alias d then leaf
+          else match pget (hd "" (split_dot (d_module d))) univ with Some m => m | None => POther end, d) /\
+  (forall n, n <> d_bound_name d -> tget n (c_table c') = tget n (c_table c)) /\ c_dynamic c' = true.
+Proof. exact DynRegProofs.C19_import_binds. Qed.
+Theorem C19_missing_module : forall univ c d, (d_from d && String.prefix gin_feature_prefix (d_module d)) = false ->
+  import_path univ (split_dot (d_module d)) = None -> process_import univ c d = DErr "ModuleNotFoundError".
+Proof. exact DynRegProofs.C19_missing_module. Qed.
+Theorem C19_unknown_feature : forall univ c m, String.prefix gin_feature_prefix m = true -> m <> "__gin__.dynamic_registration" ->
+  process_import univ c {| d_module := m; d_from := true; d_alias := None |} = DErr "SyntaxError".
+Proof. exact DynRegProofs.C19_unknown_feature. Qed.
+
+(* ---- isolation between files ---- *)
+Theorem C19_table_from_own_imports : forall univ stmts s refs s' refs' c' e n v,
+  run_stmts univ stmts s refs empty_ctx = (s', refs', c', e) -> tget n (c_table c') = Some v ->
+  exists d, In (DImport d) stmts /\ d_bound_name d = n /\ snd v = d.
+Proof. exact DynRegProofs.C19_table_from_own_imports. Qed.
+Theorem C19_isolation : forall univ stmts s1 refs1 s2 refs2 s1' r1' c1 e1 s2' r2' c2 e2,
+  ds_reg s1 = ds_reg s2 ->
+  run_stmts univ stmts s1 refs1 empty_ctx = (s1', r1', c1, e1) ->
+  run_stmts univ stmts s2 refs2 empty_ctx = (s2', r2', c2, e2) ->
+  c1 = c2 /\ e1 = e2 /\ ds_reg s1' = ds_reg s2'.
+Proof. exact C19_isolation_ctx. Qed.
+Theorem C19_static_file_has_empty_table : forall univ stmts s refs s' refs' c' e,
+  (forall d, In (DImport d) stmts -> d_module d <> "__gin__.dynamic_registration") ->
+  run_stmts univ stmts s refs empty_ctx = (s', refs', c', e) -> c_table c' = [] /\ c_dynamic c' = false.
+Proof. exact DynRegProofs.C19_static_file_has_empty_table. Qed.
+Theorem C19_missing_attribute : forall reg c sel root d, c_dynamic c = true ->
+  tget (hd "" (split_dot sel)) (c_table c) = Some (root, d) -> follow root (tl (split_dot sel)) [] = None ->
+  get_configurable reg c sel = DErr "AttributeError".
+Proof. exact DynRegProofs.C19_missing_attribute. Qed.
+
+(* ---- the exact object ---- *)
+Theorem C19_exact_object : forall reg c sel reg' full rp, reg_wf reg -> c_dynamic c = true ->
+  get_configurable reg c sel = DOk (reg', full, rp) ->
+  (forall root d, tget (hd "" (split_dot sel)) (c_table c) = Some (root, d) -> class_ids_ok root = true) ->
+  exists root d chain i e, tget (hd "" (split_dot sel)) (c_table c) = Some (root, d) /\
+    follow root (tl (split_dot sel)) [] = Some chain /\ obj_id (last chain POther) = Some i /\
+    find_sel full reg' = Some e /\ ce_obj e = i.
+Proof. exact C19_exact_object_universe. Qed.
+Theorem C19_exact_object_needs_distinct_ids :
+    ~ (forall reg c sel reg' full rp, reg_wf reg -> c_dynamic c = true ->
+         get_configurable reg c sel = DOk (reg', full, rp) ->
+         exists root d chain i e, tget (hd "" (split_dot sel)) (c_table c) = Some (root, d) /\
+           follow root (tl (split_dot sel)) [] = Some chain /\ obj_id (last chain POther) = Some i /\
+           find_sel full reg' = Some e /\ ce_obj e = i).
+Proof. exact Counterexamples.C19_exact_object_orig_refuted. Qed.
+
+(* ---- spellings; the registry ---- *)
+Theorem C19_spelling_same_configurable : forall reg c1 c2 sel1 sel2 reg1 full1 rp1 reg2 full2 rp2 i,
+  reg_wf reg -> c_dynamic c1 = true -> c_dynamic c2 = true ->
+  get_configurable reg c1 sel1 = DOk (reg1, full1, rp1) ->
+  (exists root d chain, tget (hd "" (split_dot sel1)) (c_table c1) = Some (root, d) /\ follow root (tl (split_dot sel1)) [] = Some chain /\ last chain POther = PFunc i /\
+     (forall p, nth_error (rev chain) 1 = Some p -> is_class p = false)) ->
+  get_configurable reg1 c2 sel2 = DOk (reg2, full2, rp2) ->
+  (exists root d chain, tget (hd "" (split_dot sel2)) (c_table c2) = Some (root, d) /\ follow root (tl (split_dot sel2)) [] = Some chain /\ last chain POther = PFunc i) ->
+  full2 = full1 /\ reg2 = reg1.
+Proof. exact DynRegProofs.C19_spelling_same_configurable. Qed.
+Theorem C19_registry_stays_functional : forall reg c sel reg' full rp, reg_wf reg ->
+  get_configurable reg c sel = DOk (reg', full, rp) -> reg_wf reg'.
+Proof. exact get_configurable_wf. Qed.
+Theorem C19_registry_monotone : forall reg c sel reg' full rp,
+  get_configurable reg c sel = DOk (reg', full, rp) ->
+  forall s e, find_sel s reg = Some e -> exists e', find_sel s reg' = Some e' /\ ce_obj e' = ce_obj e.
+Proof. exact get_configurable_monotone_sel. Qed.
+
+(* ---- existing references keep working ---- *)
+Theorem C19_reference_survives_step : forall reg c sel reg' full rp r e, reg_wf reg ->
+  find_sel r reg = Some e -> find_obj (ce_obj e) reg = Some e ->
+  get_configurable reg c sel = DOk (reg', full, rp) ->
+  exists e', find_sel (retarget1 rp r) reg' = Some e' /\ ce_obj e' = ce_obj e /\ find_obj (ce_obj e) reg' = Some e'.
+Proof. exact DynRegProofs.C19_reference_survives_step. Qed.
+Theorem C19_references_keep_working : forall univ stmts s refs s' refs' c' e,
+  class_ids_ok (PMod univ) = true ->
+  reg_wf (ds_reg s) -> refs_resolvable (ds_reg s) refs ->
+  run_stmts univ stmts s refs empty_ctx = (s', refs', c', e) ->
+  reg_wf (ds_reg s') /\ refs_resolvable (ds_reg s') refs'.
+Proof. exact C19_references_keep_working_call. Qed.
+Theorem C19_reference_object_preserved : forall univ stmts s refs c s' refs' c' e kp r e0,
+  reg_wf (ds_reg s) -> In (kp, r) refs -> find_sel r (ds_reg s) = Some e0 ->
+  (forall scope sel param v, In (DBind scope sel param v) stmts -> scope <> fst (fst kp) \/ param <> snd kp) ->
+  run_stmts univ stmts s refs c = (s', refs', c', e) ->
+  exists r' e', In (kp, r') refs' /\ find_sel r' (ds_reg s') = Some e' /\ ce_obj e' = ce_obj e0.
+Proof. exact DynRegProofs.C19_reference_object_preserved. Qed.
+
+(* ---- config_str re-aliases colliding bound names ---- *)
+Theorem C19_header_names_unique : forall imports, List.length imports + 3 <= 10 ^ 20 ->
+  NoDup (map bound_name (import_manager imports)).
+Proof. exact import_manager_unique_names. Qed.
+
 Print Assumptions C19_unprovided_name.
 Print Assumptions C19_reserved_gin.
 Print Assumptions C19_late_enabling.
 Print Assumptions C19_aliased_enabling.
 Print Assumptions C19_existing_object_reused.
+Print Assumptions C19_import_binds.
+Print Assumptions C19_missing_module.
+Print Assumptions C19_unknown_feature.
+Print Assumptions C19_table_from_own_imports.
+Print Assumptions C19_isolation.
+Print Assumptions C19_static_file_has_empty_table.
+Print Assumptions C19_missing_attribute.
+Print Assumptions C19_exact_object.
+Print Assumptions C19_exact_object_needs_distinct_ids.
+Print Assumptions C19_spelling_same_configurable.
+Print Assumptions C19_registry_stays_functional.
+Print Assumptions C19_registry_monotone.
+Print Assumptions C19_reference_survives_step.
+Print Assumptions C19_references_keep_working.
+Print Assumptions C19_reference_object_preserved.
+Print Assumptions C19_header_names_unique.
